@@ -301,7 +301,9 @@ def run(shard, ctx):
                 elif r < 0.65:
                     unit = meter[1] if meter[1] else 4
                     hist.append(("+", "D"))
-                    ok = do_place(ctx, bar, model, MU.Val(unit), "D", hist, meter, via="+")
+                    plus_c = rng.choice(["D", "D", None, ["C", "E"], ("nc", ["A", "C"]), []])      # (bar + None is a one-beat rest)
+                    hist[-1] = ("+", repr(plus_c))
+                    ok = do_place(ctx, bar, model, MU.Val(unit), plus_c, hist, meter, via="+")
                 elif r < 0.68:
                     # a placement the library must refuse by raising (malformed content): nothing may be left behind
                     before = snapshot(bar)
